@@ -7,12 +7,14 @@ import Operon.Model.Telomere
   new k maxOps errThr allowRenew lifeQ|none idleQ|none   construct a lifecycle NOW in slot k (replacing), select it
   use k                                                  select slot k (constructed now with the case's cfg if empty)
   tickd | tickk c | renewd | renewk n|none r | apor      other call forms (bare call = defaults read from the signatures)
+  tickb | ticki c | renewi n r                           tick(True), tick(IntSubclass(c)), renew(IntSubclass(n), int r)
   set thr n | set allow b | set life q|none | set idle q|none   public configuration attribute re-assigned
   many n <op>                                            the op n times (1..3000), last observation printed
   race j <opA> | <opB>                                   two overlapping calls (thread A held back before its j-th lock acquisition
                                                           while B runs): ret `retA/retB`, events and lock trace tagged a/b
-  cb 0|1|2                                               callbacks of the current lifecycle: return / on_phase_change raises /
-                                                          on_senescence raises (a call ended by that exception prints ret `!`)
+  cb 0|1|2|3                                             callbacks of the current lifecycle: return / on_phase_change raises /
+                                                          on_senescence raises (a call ended by that exception prints ret `!`) /
+                                                          on_senescence calls renew(None, True) on the lifecycle (auto-renewal)
   start | tick c | err | hb | timeouts | renew n|none r | apo | term | rst | adv us     (`rst` = Telomere.reset(); a `reset` line separates cases)
 
   observation: ret phase length errors ops renewals reason age [events] lockTrace is_operational is_active time_remaining ops_remaining events_count ## tag
@@ -29,6 +31,8 @@ structure DSt where
   dead : List Nat := []
   /-- slot → what its callbacks do (absent = they return) -/
   cb : List (Nat × CbMode) := []
+  /-- slot → its `on_senescence` calls `renew()` (auto-renewal, `cb 3`) -/
+  re : List (Nat × Bool) := []
 
 def showPhase : Phase → String
   | .nascent => "N" | .active => "A" | .senescent => "S" | .apoptotic => "P" | .terminated => "T"
@@ -82,6 +86,10 @@ def parseOp : List String → Option Op
   | ["renewk", n, r] =>
     if n = "none" then some (.renew none (boolOf r)) else n.toNat?.map fun a => .renew (some a) (boolOf r)
   | ["apor"] => some .apo
+  -- arguments of an unusual but legal TYPE: tick(True), tick(IntSubclass(c)), renew(IntSubclass(n), 0|1 as int)
+  | ["tickb"] => some (.tick 1)
+  | ["ticki", c] => c.toNat?.map .tick
+  | ["renewi", n, r] => n.toNat?.map fun a => .renew (some a) (boolOf r)
   | _ => none
 
 /-- `set what value`: the re-assigned configuration -/
@@ -110,13 +118,14 @@ def step1 (d : DSt) (toks0 : List String) : DSt × String :=
   | ["cfg", m, e, a, l, i] =>
     let cfg := parseCfg m e a l i
     let w := (stepW World.empty (.new 0 cfg)).1
-    ({ cfg := cfg, w := w, cur := 0, dead := [], cb := [] }, showSlot w 0)
+    ({ cfg := cfg, w := w, cur := 0, dead := [], cb := [], re := [] }, showSlot w 0)
   | ["new", k, m, e, a, l, i] =>
     match k.toNat? with
     | none => (d, "bad-op")
     | some k =>
       let w := (stepW d.w (.new k (parseCfg m e a l i))).1
-      ({ d with w := w, cur := k, dead := d.dead.filter (· != k), cb := (k, .ok) :: d.cb }, showSlot w k ++ " ## new")
+      ({ d with w := w, cur := k, dead := d.dead.filter (· != k), cb := (k, .ok) :: d.cb, re := (k, false) :: d.re },
+        showSlot w k ++ " ## new")
   | ["use", k] =>
     match k.toNat? with
     | none => (d, "bad-op")
@@ -131,9 +140,10 @@ def step1 (d : DSt) (toks0 : List String) : DSt × String :=
     -- the callbacks of the current lifecycle: 0 return, 1 on_phase_change raises, 2 on_senescence raises
     match m.toNat? with
     | some n =>
-      if n > 2 then (d, "bad-op") else
+      if n > 3 then (d, "bad-op") else
       if d.dead.contains d.cur then (d, "dead") else
-      ({ d with cb := (d.cur, if n = 1 then .changeRaises else if n = 2 then .senescenceRaises else .ok) :: d.cb },
+      ({ d with cb := (d.cur, if n = 1 then .changeRaises else if n = 2 then .senescenceRaises else .ok) :: d.cb,
+                re := (d.cur, n == 3) :: d.re },
         showSlot d.w d.cur ++ " ## cb")
     | none => (d, "bad-op")
   | ["set", what, v] =>
@@ -156,8 +166,13 @@ def step1 (d : DSt) (toks0 : List String) : DSt × String :=
       | (w, some o0) =>
         -- the call under the callbacks installed on this lifecycle
         let mode := (d.cb.lookup d.cur).getD .ok
+        let renews := (d.re.lookup d.cur).getD false
         let (o, raised, w) := match d.w.get d.cur with
           | some i =>
+            if renews then
+              let r := stepRe i.cfg i.st op
+              (r, false, (⟨w.now, (d.cur, ⟨i.cfg, r.st⟩) :: w.insts⟩ : World))
+            else
             let r := stepCb mode i.cfg i.st op
             (r.1, r.2, if r.2 then (⟨w.now, (d.cur, ⟨i.cfg, r.1.st⟩) :: w.insts⟩ : World) else w)
           | none => (o0, false, w)
@@ -165,7 +180,8 @@ def step1 (d : DSt) (toks0 : List String) : DSt × String :=
           let cfg := match w.get d.cur with | some i => i.cfg | none => d.cfg
           ({ d with w := w },
             joinSp [if raised then "!" else showRet o.ret, showState o.st, showList (o.evs.map showEv), showLock o.lock,
-              showAcc cfg o.st] ++ " ## " ++ o.tag ++ (if raised then " cb:raised" else ""))
+              showAcc cfg o.st] ++ " ## " ++ o.tag ++ (if raised then " cb:raised" else "")
+              ++ (if renews ∧ o.evs.length ≠ o0.evs.length then " cb:renewed" else ""))
         else ({ d with dead := d.cur :: d.dead }, "hang ## hang:" ++ o.tag)
 
 def manyOk : List String → Bool
@@ -178,7 +194,7 @@ def manyLoop (f : DSt → DSt × String) : Nat → DSt → String → DSt × Str
 
 def raceOk : List String → Bool
   | h :: _ => ["start", "tick", "err", "hb", "timeouts", "renew", "apo", "term", "rst", "tickd", "tickk", "renewd", "renewk",
-      "apor"].contains h
+      "apor", "tickb", "ticki", "renewi"].contains h
   | [] => false
 
 def stripTags (o : String) : String × String :=
